@@ -391,6 +391,10 @@ class Check:
         self.rng = random.Random(seed * 1000003 + sum(map(ord, prop)))
         self.t0 = time.time()
         self.work = os.path.join(WORKROOT, prop)
+        # the work directory holds generated cases files and scratch input
+        # files of ONE run: start from an empty one, drop it afterwards
+        import shutil
+        shutil.rmtree(self.work, ignore_errors=True)
         os.makedirs(self.work, exist_ok=True)
         os.makedirs(os.path.join(OUTROOT, 'replays'), exist_ok=True)
         os.makedirs(os.path.join(OUTROOT, 'evidence'), exist_ok=True)
@@ -569,6 +573,9 @@ class Check:
         with open(tmp, 'w', encoding='utf-8') as f:
             json.dump(ev, f, indent=1, default=str, sort_keys=True)
         os.replace(tmp, path)
+        if not os.environ.get('VERIF_KEEP_WORK'):
+            import shutil
+            shutil.rmtree(self.work, ignore_errors=True)
         for ln in lines:
             print(ln)
         for n in self.notes:
